@@ -26,6 +26,7 @@ class ScriptConfig(BaseOptimizationConfig):
     population_size: int = 2
     max_cycles: int = 1
     fitness_error: float | None = None
+    flag: int | None = 7       # a declared parameter whose default is NOT None (grids may set it to None)
 
 
 class T0(Task):
